@@ -57,6 +57,8 @@ package eth2wrap
 // a round over a group ends before every member has answered only with a successful answer or because the caller's
 // context ended: a failed answer of one member (whatever its class) never ends the round while others are outstanding
 //@ loop 2 return (r1 == nil && isSuccessFunc(r0)) || (ctx.Err() != nil && r1 == ctx.Err())
+// ... and the loop over the answers is never left by a break: it ends when every forked member has answered
+//@ loop 2 break false
 
 // submit is provide with the result dropped: the same primaries, fallbacks and selector, one provide round, and the
 // work function runs only inside it (so the fallback decision of provide applies to every submission).
